@@ -34,6 +34,7 @@ type Facts struct {
 	GlobalVars   []Site            `json:"global_vars"`   // package-level variables of the library packages
 	ASTWrites    []Site            `json:"ast_writes"`    // writes through pointers to ast types in internal/explain and ast
 	LocalCopies  []Site            `json:"local_copy_writes"`
+	AliasAppends []Site            `json:"alias_appends"` // appends whose base may alias a slice stored in the AST (internal/explain, ast)
 	MapRanges    []Site            `json:"map_ranges"`
 	ReaderUse    []Site            `json:"reader_use"`    // every use of Lexer.reader
 	ParserFields []string          `json:"parser_fields"` // fields of parser.Parser
@@ -85,6 +86,7 @@ func main() {
 		scanPackage(p, short, facts)
 	}
 	extractTables(pkgs, facts)
+	extractAliasAppends(pkgs, facts)
 	extractLoops(pkgs, facts, *leanDir) // loops.go, skelana.go (C02: progress skeletons, contracts, loop inventory)
 	extractSites(pkgs, facts, *leanDir) // panicsites.go, nilreturns.go (C01/C03 inventories)
 	sortSites(facts)
@@ -102,7 +104,7 @@ func main() {
 }
 
 func sortSites(f *Facts) {
-	for _, s := range []*[]Site{&f.GlobalWrites, &f.GlobalVars, &f.ASTWrites, &f.LocalCopies, &f.MapRanges, &f.ReaderUse, &f.GoStmts, &f.ErrSites, &f.PosUses} {
+	for _, s := range []*[]Site{&f.AliasAppends, &f.GlobalWrites, &f.GlobalVars, &f.ASTWrites, &f.LocalCopies, &f.MapRanges, &f.ReaderUse, &f.GoStmts, &f.ErrSites, &f.PosUses} {
 		sort.SliceStable(*s, func(i, j int) bool { return (*s)[i].Pos < (*s)[j].Pos })
 	}
 }
